@@ -319,22 +319,20 @@ def obligations(tier: str) -> List[dict]:
                 so(2, 1, op, 400, ['top-dropped'] if (op == 2 and top1 == 1)
                    else [], top1=top1, top2=0)
     else:
+        q(0, 100)
         q(1, 600)
         for top in range(4):
             for fs in range(3):
-                q(2, 3000, top=top, fs=fs)
+                q(2, 1800, top=top, fs=fs)
             for s0 in range(2):
                 for r0 in range(3):
-                    q(3, 3000, top=top, fs=0, fr=0, ft=0, t0_s=s0, t0_r=r0)
+                    q(3, 1800, top=top, fs=0, fr=0, ft=0, t0_s=s0, t0_r=r0)
         for op in range(4):
-            so(1, 1, op, 1500)
+            so(1, 1, op, 1500, ['added'] if op < 2 else ['removed'])
             for top1 in range(4):
-                for top2 in range(4):
-                    so(2, 1, op, 3000, top1=top1, top2=top2)
-                for x0t in range(3):
-                    so(2, 2, op, 3000, top1=top1, top2=0, x0_t=x0t)
-                    so(3, 2, op, 3000, top1=top1, top2=0, x0_t=x0t, x0_s=0,
-                       q0=0)
+                so(2, 1, op, 1800, top1=top1, top2=0)
+                so(1, 2, op, 1800, top1=top1, top2=0)
+                so(2, 2, op, 1800, top1=top1, top2=0, x0_t=0, p0=1)
     return obs
 
 
